@@ -98,6 +98,7 @@ type instance struct {
 	up          bool
 	waitProc    chan struct{}
 	lastFailed  bool
+	shardsClean bool
 	failedSince *time.Time
 	logger      types.Logger
 	options     *InstanceOptions
@@ -545,6 +546,7 @@ func (i *instance) writeConfig() (err error) {
 		return err
 	}
 	// backend shards -- fills the .Global and .Backends attributes
+	shardFiles := map[string]bool{}
 	if i.options.BackendShards > 0 {
 		shards := i.config.Backends().ChangedShards()
 		if len(shards) > 0 {
@@ -558,12 +560,39 @@ func (i *instance) writeConfig() (err error) {
 				}, configFile); err != nil {
 					return err
 				}
+				shardFiles[configFile] = true
 				strshards[n] = str
 			}
 			i.logger.InfoV(2, "updated main cfg and %d backend file(s): %v", len(strshards), strshards)
 		}
 	}
+	if !i.shardsClean {
+		// First configuration written by this instance. Backend files from a
+		// former instance - another controller process or a bigger number of
+		// shards - are unknown to this one: they would never be updated, and
+		// haproxy would load them along with the files written above.
+		if err = i.removeStaleShards(shardFiles); err != nil {
+			return err
+		}
+		i.shardsClean = true
+	}
 	return err
+}
+
+func (i *instance) removeStaleShards(written map[string]bool) error {
+	files, err := filepath.Glob(filepath.Join(i.options.HAProxyCfgDir, "haproxy5-backend*.cfg"))
+	if err != nil {
+		return err
+	}
+	for _, file := range files {
+		if !written[file] {
+			if err := os.Remove(file); err != nil {
+				return fmt.Errorf("cannot remove stale backend file: %w", err)
+			}
+			i.logger.InfoV(2, "removed stale backend file %s", file)
+		}
+	}
+	return nil
 }
 
 func (i *instance) updateSuccessful(success bool) {
